@@ -311,6 +311,15 @@ func c36CheckQuery(t *rapid.T, tr *ip.CIDRTrie, m *c36Model, q netip.Prefix, st 
 			if v, ok := m.m[gp]; !ok || ld != any(v) || !gp.Contains(q.Addr()) {
 				t.Fatalf("LPM(%v)=(%v,%v): not a stored entry containing the query address; stored: %s", q, lc, ld, m.dump())
 			}
+			// Whatever is returned must be at least as specific as the longest stored prefix
+			// that contains the whole query (that one always qualifies).
+			if haveLongest && gp.Bits() < longest.Bits() {
+				t.Fatalf("LPM(%v)=(%v,%v) is shorter than the longest stored prefix containing the query, %v; stored: %s", q, lc, ld, longest, m.dump())
+			}
+		} else if haveLongest {
+			// Some stored prefix contains the whole query, so "no match" is wrong under
+			// every reading of longest-prefix match.
+			t.Fatalf("LPM(%v) found nothing; stored prefix %v contains the query; stored: %s", q, longest, m.dump())
 		}
 	}
 
